@@ -19,7 +19,7 @@ from vlib.ctx import validate_trace
 
 ASSUME = [
     "TLC 1.8 and the CommunityModules Json/IOUtils are correct",
-    "the H5 gates (verif::sched::point at the entry of the five state-touching client calls of ProvisionSharedState) "
+    "the H5 gates (verif::sched::point at the entry of the state-touching client calls of ProvisionSharedState) "
     "only delay a task; releasing one parked task at a time makes the order of actor messages the order of the schedule",
     "the key keeper's channel state is read in the same driver step as get_state (no gate between them): schedules with a "
     "latch change between the two reads are not generated",
@@ -40,7 +40,7 @@ MSGTXT = {"R": "rd-not-ready", "K": "kk-not-ready", "L": "ls-not-ready"}
 FUTURE = 1001
 FILE_TAGS = ("CEXT", "CEXI")
 PROP_OF_OK = {"q": "QueryTruthPos", "z": "QueryTruthZero", "c": "QueryComplete", "t": "TagAtomic"}
-STRACE = ("strace -f -o {d}/strace.log -P {k}/status.tag.tmp -P {k}/status.tag -e trace=write,rename,renameat,renameat2 "
+STRACE = ("strace -f -o {d}/strace.log -P {k}/status.tag.tmp -P {k}/status.tag {more}-e trace=write,rename,renameat,renameat2 "
           "-e inject=write:delay_enter={w} -e inject=rename,renameat,renameat2:delay_enter={r} ")
 
 
@@ -58,15 +58,20 @@ def run_driver(runs, name, bindir, *, strace=None, timeout=240, workers=6, _retr
     with open(sp, "w") as f:
         json.dump({"port": 3080, "workers": workers, "runs": runs}, f)
     env = dict(os.environ, VERIF_CMD="provision", VERIF_SCRIPT=sp, VERIF_OUT=out, RUST_BACKTRACE="0")
-    pre = ""
+    pre, ns = "", ["unshare", "-n", "-m"]
     if strace:
-        pre = STRACE.format(d=d, k=os.path.join(d, "keys"), w=strace[0] * 1000, r=strace[1] * 1000)
+        # per-writer temp files are named status.tag.tmp.<pid>.<seq>: a private pid namespace makes <pid> small and
+        # predictable, so the path filter can list the names (strace injects only into calls matching -P)
+        k = os.path.join(d, "keys")
+        more = "".join("-P %s/status.tag.tmp.%d.%d " % (k, pid, seq) for pid in range(2, 16) for seq in range(0, 4))
+        pre = STRACE.format(d=d, k=k, w=strace[0] * 1000, r=strace[1] * 1000, more=more)
+        ns = ["unshare", "-n", "-m", "-p", "-f", "--mount-proc"]
     # private network namespace (the proxy port, 168.63.129.16 unreachable) and a private /var/log (the status task the
     # real code starts on ALL_READY writes /var/log/azure-proxy-agent/), /dev/console muted
     sh = ("ip link set lo up && mount --bind %s/varlog /var/log && mount --bind /dev/null /dev/console && exec %s%s"
           % (d, pre, exe))
     try:
-        p = subprocess.run(["unshare", "-n", "-m", "sh", "-c", sh], env=env, cwd=d, stdout=subprocess.PIPE,
+        p = subprocess.run(ns + ["sh", "-c", sh], env=env, cwd=d, stdout=subprocess.PIPE,
                            stderr=subprocess.STDOUT, timeout=timeout, text=True, errors="replace")
     except subprocess.TimeoutExpired:
         raise util.ToolError("provision driver %s timed out after %ss" % (name, timeout))
@@ -138,9 +143,12 @@ def abs_index(T, v):
     return j
 
 
+START_OF = {"U": "upd", "R": "reset", "T": "tstate", "Q": "qfin"}
+
+
 def rows_of(run_id, events):
-    """rows for ProvisionTrace + per-step observation records (for the S->I comparison)"""
-    rows, obs, T, resp, desync = [{"e": "run", "id": str(run_id)}], [], [], {}, None
+    """rows for ProvisionTrace + per-message observation records (for the S->I comparison and the artefacts)"""
+    rows, obs, T, desync = [{"e": "run", "id": str(run_id)}], [], [], None
     for e in events:
         k = e["e"]
         if k == "Run":
@@ -151,44 +159,77 @@ def rows_of(run_id, events):
             obs.append({"t": "env", "i": 0, "a": "tick", "x": "-"})
         elif k == "Desync":
             desync = e["why"]
+        elif k == "Skip":
+            obs.append({"t": e["t"], "i": e["i"], "a": "skip", "x": "-", "exp": e["a"]})
         elif k == "TagObs":
             for o in e["obs"]:
                 rows.append({"e": "tagobs", "tag": tag_rec(o["tag"]), "ino": o.get("ino", 0)})
-            obs.append({"a": "tagobs", "seen": [o["tag"] for o in e["obs"]]})
+            obs.append({"t": "-", "i": 0, "a": "tagobs", "x": "-", "seen": [o["tag"] for o in e["obs"]]})
         elif k == "Step":
             fin = abs_index(T, int(e["fin"]))
-            r = {"e": "step", "t": e["t"], "i": e["i"], "a": e["a"], "x": e["x"], "flags": flag_names(e["flags"]),
-                 "fin": fin, "latch": bool(e["latch"]), "tag": tag_rec(e["tag"])}
-            o = dict(r, out=e["out"], nowait=bool(e.get("nowait")))
-            if e["a"] == "qfin":
+            env_step = "g" not in e
+            op = "E" if env_step else e["op"]
+            g = e["a"] if env_step else e["g"]
+            done = (e["out"] == "done") and not env_step
+            first = (not env_step) and e.get("stage") == 1
+            r = {"e": "step", "t": e["t"], "i": e["i"], "op": op, "g": g, "first": first, "done": done,
+                 "x": "-" if env_step else e.get("sub", "-"), "flags": flag_names(e["flags"]), "fin": fin,
+                 "latch": bool(e["latch"]), "tag": tag_rec(e["tag"])}
+            o = {"t": e["t"], "i": e["i"], "a": e["a"], "x": e["x"], "op": op, "g": g, "stage": e.get("stage", 0),
+                 "flags": r["flags"], "fin": fin, "tag": r["tag"], "out": e["out"], "nowait": bool(e.get("nowait")),
+                 "extra": bool(e.get("extra")), "exp": e.get("exp", "-")}
+            if op == "Q":
                 qk = e.get("qkind")
-                q = 0 if qk in ("zero", "nohdr") else FUTURE if qk == "future" else -1 if qk == "neg" else abs_index(T, int(e["q"]))
-                r["q"] = max(q, 0)
-            if e["a"] == "qstate":
-                if e["out"] == "done":
+                q = 0 if qk in ("zero", "nohdr", "neg") else FUTURE if qk == "future" else abs_index(T, int(e["q"]))
+                r["q"] = q
+                o["q"] = q
+                o["qkind"] = qk
+                if done:
                     if e.get("status") != 200:
                         raise util.ToolError("query %s of run %s: HTTP status %s %s" % (e["i"], run_id, e.get("status"), e.get("err")))
                     body = json.loads(e["body"])
                     nm = names_of_msg(body["errorMessage"])
-                    resp[e["i"]] = {"finished": bool(body["finished"]), "names": nm if nm is not None else ["?"],
-                                    "lat": bool(e["latch"]), "raw": body["errorMessage"]}
-            if e["a"] == "qchan":
-                if e["i"] not in resp:
-                    continue
-                r.update({kk: v for kk, v in resp[e["i"]].items() if kk != "raw"})
-                o.update(resp[e["i"]])
+                    ans = {"finished": bool(body["finished"]), "names": nm if nm is not None else ["?"], "lat": bool(e["latch"])}
+                    r.update(ans)
+                    o.update(ans, raw=body["errorMessage"])
             rows.append(r)
             obs.append(o)
     return rows, obs, desync
 
 
+def schedule_of(obs, rows):
+    """the task-order schedule that was actually executed (an artefact the driver can run again)"""
+    steps = []
+    for o in obs:
+        if o["a"] in ("tagobs", "skip") or o.get("extra"):
+            continue
+        if o["a"] in ("tick", "latch"):
+            steps.append({"t": "env", "i": 0, "a": o["a"], "x": o["x"]})
+        elif o.get("stage") == 1:
+            s_ = {"t": o["t"], "i": o["i"], "a": START_OF.get(o["op"], "cont"), "x": o["x"]}
+            if o["op"] == "Q":
+                s_["x"] = "future" if o["q"] == FUTURE else "zero" if o["q"] == 0 else "past"
+                s_["q"] = {"q": o["q"]}
+            steps.append(s_)
+        else:
+            s_ = {"t": o["t"], "i": o["i"], "a": "cont", "x": "-"}
+            if o.get("nowait"):
+                s_.update(nowait=True, observe=True)
+            steps.append(s_)
+    return steps
+
+
 def compare(hist, obs, with_tag=True):
-    """S->I: what the specification expected after every step vs what the real code showed"""
+    """S->I: what the specification expected after every actor message vs what the real code showed.  The replay
+    follows the implementation wherever it goes, so after the first message that differs the two are no longer
+    aligned: the comparison stops there (the run is still decided against the statement)."""
     mism = []
-    steps = [s for s in hist if s["a"] not in ("wopen", "wwrite", "wrename")]
-    for k, (s, o) in enumerate(zip(steps, obs)):
-        if s["a"] != o["a"]:
-            mism.append((k, "action", s["a"], o["a"]))
+    steps = [s for s in hist if s["a"] not in ("wopen", "wwrite", "wrename", "qchan")]
+    answers = {s["i"]: s["q"] for s in hist if s["a"] == "qchan"}
+    ob = [o for o in obs if o["a"] != "tagobs" and not o.get("extra")]
+    for k, (s, o) in enumerate(zip(steps, ob)):
+        if s["a"] != o["a"] or s["t"] != o["t"] or s["i"] != o["i"]:
+            mism.append((k, "message", "%s.%s" % (s["t"], s["a"]), "%s.%s" % (o["t"], o["a"])))
             break
         if s["a"] == "tick" or o.get("nowait"):
             continue
@@ -198,17 +239,18 @@ def compare(hist, obs, with_tag=True):
             mism.append((k, "finished_tick", s["fin"], o["fin"]))
         if with_tag and (s["tag"]["k"] != o["tag"]["k"] or sorted(s["tag"]["n"]) != sorted(o["tag"]["n"])):
             mism.append((k, "status.tag", s["tag"], o["tag"]))
-        if s["a"] == "qchan" and "finished" in o:
-            if s["q"]["finished"] != o["finished"]:
-                mism.append((k, "finished", s["q"]["finished"], o["finished"]))
-            if sorted(s["q"]["names"]) != sorted(o["names"]):
-                mism.append((k, "error_text", s["q"]["names"], o["names"]))
-        if s["t"] in ("rd", "ls", "kk") and s["a"] in ("upd", "reset", "tstate", "setfin", "wstate"):
+        if o.get("op") == "Q" and "finished" in o and o["i"] in answers:
+            want = answers[o["i"]]
+            if want["finished"] != o["finished"]:
+                mism.append((k, "finished", want["finished"], o["finished"]))
+            if sorted(want["names"]) != sorted(o["names"]):
+                mism.append((k, "error_text", want["names"], o["names"]))
+        if s["t"] in ("rd", "ls", "kk"):
             want = {"setfin": "provision.set_provision_finished", "wstate": "provision.get_state"}.get(s["pc"], "done")
             if want != o["out"]:
                 mism.append((k, "next_gate", want, o["out"]))
-    if len(obs) < len(steps):
-        mism.append((len(obs), "truncated", len(steps), len(obs)))
+    if not mism and len(ob) != len(steps):
+        mism.append((min(len(ob), len(steps)), "length", len(steps), len(ob)))
     return mism
 
 
@@ -255,8 +297,7 @@ def signature(prop, rows, race_writers=0):
     if prop == "QueryTruthZero":
         return {"kind": "zero-tick-query-reports-finished"}
     if prop == "QueryTruthPos":
-        stale = any(r.get("a") == "setfin" and r.get("x") == "U" and sorted(r["flags"]) != ["K", "L", "R"] for r in rows)
-        return {"kind": "premature-finished", "via": "all-ready-completion-after-reset" if stale else "other"}
+        return {"kind": "premature-finished"}
     if prop in ("TagAtomic", "TagRenameOnly"):
         if race_writers >= 2:
             return {"kind": "shared-tag-tmp"}
@@ -266,6 +307,53 @@ def signature(prop, rows, race_writers=0):
 
 
 # ---------------------------------------------------------------------------------------------------------------------
+
+def overtake_probes():
+    """directed I->S schedules: a readiness report (all its messages) lands between two consecutive messages of another
+    task -- after the 1st, 2nd or 3rd message of the victim, whatever those messages are in the implementation --
+    once completing ALL_READY and once not; afterwards queries name instants before, during and after."""
+    sub = {"rd": "R", "ls": "L", "kk": "K"}
+    victims = [("kk", "reset"), ("kk", "tstate"), ("kk", "upd"), ("rd", "upd"), ("ls", "upd"), ("q", "qfin")]
+    out = []
+
+    def whole(t, a, x=None, i=0, q=None):
+        s_ = {"t": t, "i": i, "a": a, "x": x or sub.get(t, "-")}
+        if q is not None:
+            s_["q"] = {"q": q}
+        return [s_, {"t": t, "i": i, "a": "drain", "x": "-"}]
+    tick = {"t": "env", "i": 0, "a": "tick", "x": "-"}
+    for vt, va in victims:
+        for ot in ("rd", "ls", "kk"):
+            if ot == vt:
+                continue
+            for gap in (1, 2, 3):
+                for full in (True, False):
+                    pre = [t for t in ("rd", "ls", "kk") if t != ot and not (t == vt and va == "upd")]
+                    if vt == "q" and ot == "ls":
+                        continue
+                    if not full:
+                        drop = [t for t in pre if not (vt == "q" and t == "ls") and not (va == "reset" and t == "kk")]
+                        if not drop:
+                            continue
+                        pre = [t for t in pre if t != drop[0]]
+                    steps = []
+                    for t in pre:
+                        steps += whole(t, "upd")
+                    steps.append(tick)                                                   # clock 2
+                    vi = 5 if vt == "q" else 0
+                    steps.append({"t": vt, "i": vi, "a": va, "x": "past" if vt == "q" else sub.get(vt, "-"), "q": {"q": 1}})
+                    steps += [{"t": vt, "i": vi, "a": "cont", "x": "-"}] * (gap - 1)
+                    steps += whole(ot, "upd")
+                    steps.append(tick)                                                   # clock 3
+                    steps.append({"t": vt, "i": vi, "a": "drain", "x": "-"})
+                    if "ls" not in pre and ot != "ls" and vt != "ls":
+                        steps += whole("ls", "upd")
+                    steps.append(tick)                                                   # clock 4
+                    steps += whole("q", "qfin", "past", 1, 1) + whole("q", "qfin", "past", 2, 3) + whole("q", "qfin", "exact", 3)
+                    steps += whole("q", "qfin", "past", 4, 4)
+                    out.append(steps)
+    return out
+
 
 def verdicts(c, rows, name, count, chunk_runs=350):
     """TLC decides every recorded run against the statement; {run id: [names of the parts that fail]}"""
@@ -306,7 +394,8 @@ def run(c):
     if w.invariant_violated != "NoQueryFinishedByTick":
         raise tlcmod.TlcError("vacuity: no query is ever answered 'finished' by the tick comparison")
 
-    # 2. the statement on the design: every class of state in which it fails, with one shortest schedule each --------
+    # 2. regression schedules: every class of state in which the statement failed on the design *before* the repairs
+    #    (Fix = {}), with one shortest schedule each; they are driven through the current code like any other ---------
     cands = []     # (class, property, hist)
     for cfg, tag, prop in (("ProvisionGen_cexq.cfg", "CEXQ", "QueryTruthPos"), ("ProvisionGen_cexz.cfg", "CEXZ", "QueryTruthZero"),
                            ("ProvisionGen_cext.cfg", "CEXT", "TagAtomic"), ("ProvisionGen_cexi.cfg", "CEXI", "TagRenameOnly")):
@@ -315,8 +404,9 @@ def run(c):
         c.extra.setdefault("design_counterexamples", {})[prop] = len(hs)
         for h in hs:
             cands.append((tag, prop, h))
-    c.extra["design_note"] = ("the properties of the statement that TLC refutes on the implementation-shaped design are "
-                              "candidates only; each is decided by replaying its schedule on the real code")
+    c.extra["design_note"] = ("design_counterexamples: classes of interleavings that break the statement on the design without "
+                              "the repairs 'stale', 'zero', 'tmp' (spec constant Fix = {}); kept as regression schedules, each "
+                              "is decided by driving it through the real code")
 
     # 3. S->I: complete random behaviours of the specification --------------------------------------------------------
     nsim = 3000 if thorough else 260
@@ -355,6 +445,12 @@ def run(c):
                 "ticks": rnd.randint(0, 4), "latch": rnd.choice([0, 0, 1, 2])}
         runs.append(spec)
         meta[rid] = {"kind": "auto", "spec": spec}
+    # 4b. I->S, directed: a readiness report overtakes between any two consecutive messages of another task
+    probes = overtake_probes()
+    for n, st in enumerate(probes):
+        rid = "probe%d" % n
+        runs.append({"id": rid, "mode": "replay", "steps": st})
+        meta[rid] = {"kind": "probe", "steps": st}
     by = run_batches(runs, "c16", bindir)
     missing = [r["id"] for r in runs if r["id"] not in by]
     if missing:
@@ -374,11 +470,11 @@ def run(c):
                 drift.append((r["id"], mm[:3]))
             c.count(label(m["hist"]))
         else:
-            c.count(label([o for o in obs if o["a"] != "tagobs"]))
+            c.count(label([o for o in obs if o["a"] not in ("tagobs", "skip")]))
     v = verdicts(c, allrows, "c16_all", len(runs))
     c.sample({"schedule": label(hists[0]), "observed": [{k: o[k] for k in ("t", "a", "flags", "fin", "out") if k in o}
                                                          for o in robs["sim0"][1]][:12]})
-    qa = next((o for rid in robs for o in robs[rid][1] if o.get("a") == "qchan" and "raw" in o), None)
+    qa = next((o for rid in robs for o in robs[rid][1] if o.get("op") == "Q" and "raw" in o), None)
     if qa:
         c.sample({"query_answer": {"finished": qa["finished"], "errorMessage": qa["raw"], "flags_at_get_state": qa["flags"]}})
 
@@ -440,18 +536,11 @@ def run(c):
             if key in reported:
                 c.violation("", sig)       # counts the repetition
                 continue
-            # the artefact is the gated schedule actually executed
-            if m["kind"] == "auto":
-                steps = [{kk: o.get(kk, {"t": "env", "i": 0, "x": "-"}.get(kk)) for kk in ("t", "i", "a", "x")}
-                         for o in robs[rid][1] if o["a"] not in ("tagobs",)]
-                # the tick a query named, as a clock index
-                for s, r_ in zip(steps, [r_ for r_ in robs[rid][0] if r_["e"] in ("step", "tick")]):
-                    if s["a"] == "qfin":
-                        s["q"] = {"q": r_["q"]}
-                        s["x"] = "future" if r_["q"] == FUTURE else "zero" if r_["q"] == 0 else "past"
-                art = {"id": rid + "_again", "mode": "replay", "steps": steps}
-            elif m["kind"] == "race":
+            # the artefact is the task-order schedule actually executed
+            if m["kind"] == "race":
                 art = {"id": rid + "_again", "mode": "replay", "steps": m["steps"], "settle_ms": 1700}
+            elif m["kind"] in ("auto", "probe"):
+                art = {"id": rid + "_again", "mode": "replay", "steps": schedule_of(robs[rid][1], robs[rid][0])}
             else:
                 art = {"id": rid + "_again", "mode": "replay", "steps": m["hist"]}
             again = run_driver([art], "c16_again_%s" % rid, bindir, strace=(400, 300) if m["kind"] == "race" else None,
@@ -462,17 +551,21 @@ def run(c):
                 unrepro.append({"run": rid, "property": prop, "schedule": label(art["steps"])})
                 continue
             reported.add(key)
-            answers = [{kk: o[kk] for kk in ("finished", "raw", "flags", "fin") if kk in o} for o in obs2 if o.get("a") == "qchan"]
+            answers = [{kk: o[kk] for kk in ("finished", "raw", "flags", "fin") if kk in o} for o in obs2 if o.get("op") == "Q" and "finished" in o]
             tags = [o["seen"] for o in obs2 if o["a"] == "tagobs"]
-            what = ("C16 %s fails on the real code, schedule [%s]; answers %s%s"
-                    % (prop, label(art["steps"]), answers, (" status.tag seen by a reader: %r" % tags[0]) if tags else ""))
+            gates = {}
+            for o in obs2:
+                if o.get("g") and o["t"] != "env":
+                    gates.setdefault("%s%s" % (o["t"], o["i"] or ""), []).append(o["g"])
+            what = ("C16 %s fails on the real code, schedule [%s]; messages per task %s; answers %s%s"
+                    % (prop, label(art["steps"]), gates, answers, (" status.tag seen by a reader: %r" % tags[0]) if tags else ""))
             c.violation(what, sig, {"driver": "VERIF_CMD=provision", "run": art, "strace_delays_ms": [400, 300] if m["kind"] == "race" else None,
                                     "property": prop, "observed_rows": rows2})
     # design-level candidates that the real code does not show
     for n, (tag, prop, h) in enumerate(cands):
         rid = ("race%d" % n) if tag in FILE_TAGS else "%s%d" % (tag.lower(), n)
         if rid in v and prop not in v[rid]:
-            c.extra.setdefault("design_candidates_not_observed", []).append({"property": prop, "schedule": label(h)})
+            c.extra["regression_schedules_clean"] = c.extra.get("regression_schedules_clean", 0) + 1
     if drift:
         c.extra["model_drift"] = {"runs": len(drift), "first": [{"run": d[0], "mismatches": [list(map(str, x)) for x in d[1]]} for d in drift[:5]],
                                   "note": "steps at which the real code differs from the implementation-shaped spec; each run was "
@@ -482,22 +575,22 @@ def run(c):
     if PANICS:
         c.extra["panics_outside_provisioning"] = PANICS[:5]
     c.extra["replays"] = {"spec_behaviours": len(hists), "counterexample_schedules": len([x for x in cands if x[0] not in FILE_TAGS]),
-                          "driver_random": nauto, "file_step_races": len(races),
+                          "driver_random": nauto, "overtake_probes": len(probes), "file_step_races": len(races),
                           "runs_conforming_to_spec": len(hists) + len([x for x in cands if x[0] not in FILE_TAGS]) - len(drift)}
     if unrepro:
         c.extra["unreproduced"] = unrepro
         raise util.ToolError("a property failure did not reproduce from its schedule: %s" % unrepro[:2])
-    # a task that took a different path than the specification says is drift (the run was still decided against the
-    # statement up to that point); a task that neither parked nor finished is trouble in the machinery
-    lost = [d for d in desyncs if "expected" not in d[1]]
-    if lost and not c.violations and not c.known:
-        raise util.ToolError("driver lost the schedule in %d runs without any property failing: %s" % (len(lost), lost[:2]))
+    # a task that sends other messages than the specification says is drift: the driver follows it and the run is
+    # decided against the statement; only a task that neither parks nor finishes is trouble in the machinery
+    if desyncs and not c.violations and not c.known:
+        raise util.ToolError("%d runs got stuck (a task neither parked at a gate nor finished): %s" % (len(desyncs), desyncs[:2]))
     c.exhaustive = True
     c.rule = ("TLC exhaustive on spec/mc/Provision_*.cfg; S->I: every printed behaviour (seeded -simulate) and every "
               "counterexample class of the statement's properties is executed step by step on the real code through the "
               "H5 gates and compared after every step (flags, finished tick index, status.tag, next gate, HTTP answer); "
-              "I->S: seeded driver-random gated runs and strace-delayed file races are decided against the statement by "
-              "ProvisionTrace; distinct = distinct schedules executed")
+              "I->S: seeded driver-random gated runs, directed overtake probes (a readiness report between any two "
+              "consecutive messages of another task) and strace-delayed file races are decided against the statement by "
+              "ProvisionTrace; the driver follows the implementation to whatever gate it goes; distinct = distinct schedules executed")
 
 
 def replay(c, path):
